@@ -230,12 +230,6 @@ func lifecycleVariants() []Variant {
 	return vs
 }
 
-func compFieldVariants() [][]func(c *Comp, g *Gen) {
-	// per component: measurement value and signer id in {absent, valid, invalid};
-	// optional text fields in {absent, present}
-	return nil
-}
-
 // FaultyComp builds a component from a 5-digit code: digits for
 // (type, value, version, signer, desc): text fields 0 absent / 1 present;
 // hash fields 0 absent / 1 valid / 2 invalid length.
@@ -454,7 +448,7 @@ func (g *Gen) Mutated(p int, k int) (*Claims, Sig) {
 	perm := g.R.Perm(len(names))
 	var sig Sig
 	for _, ci := range perm[:k] {
-		vs := Variants(p, names[ci])
+		vs := VariantsCached(p, names[ci])
 		v := vs[g.R.Intn(len(vs))]
 		v.Apply(a, g)
 		sig = append(sig, names[ci]+"="+v.Name)
@@ -471,10 +465,48 @@ func (g *Gen) RandomProduct(p int) (*Claims, Sig) {
 		if g.R.Intn(3) != 0 {
 			continue
 		}
-		vs := Variants(p, name)
+		vs := VariantsCached(p, name)
 		v := vs[g.R.Intn(len(vs))]
 		v.Apply(a, g)
 		sig = append(sig, name+"="+v.Coarse)
+	}
+	return a, sig
+}
+
+var variantCache = map[string][]Variant{}
+
+// VariantsCached memoises Variants (the tables are immutable).
+func VariantsCached(p int, claim string) []Variant {
+	k := fmt.Sprint(p, claim)
+	if v, ok := variantCache[k]; ok {
+		return v
+	}
+	v := Variants(p, claim)
+	variantCache[k] = v
+	return v
+}
+
+// ValidProduct perturbs a valid set with variants that keep it valid (every
+// application that would make it invalid is rolled back), so that accepted
+// sets are as diverse as rejected ones.
+func (g *Gen) ValidProduct(p int) (*Claims, Sig) {
+	a := g.Valid(p)
+	var sig Sig
+	for _, name := range ClaimNames(p) {
+		if g.R.Intn(2) == 0 {
+			continue
+		}
+		vs := VariantsCached(p, name)
+		for try := 0; try < 6; try++ {
+			v := vs[g.R.Intn(len(vs))]
+			b := a.Clone()
+			v.Apply(b, g)
+			if b.Valid() {
+				a = b
+				sig = append(sig, name+"="+v.Name)
+				break
+			}
+		}
 	}
 	return a, sig
 }
